@@ -459,6 +459,62 @@ func writeFacts(p *pkgInfo) []writeFact {
 	return out
 }
 
+// ------------------------------------------------------------ walks over the caller's definitions
+
+// docWalkFact: a call made from inside a loop over `…Spec().Definitions` that is handed the loop's schema
+type docWalkFact struct {
+	Func, Callee string
+	Scratch      bool // the schema goes through scratchSchema(…) first
+}
+
+func docWalkFacts(p *pkgInfo) []docWalkFact {
+	var out []docWalkFact
+	fns := p.funcs()
+	keys := make([]string, 0, len(fns))
+	for k := range fns {
+		keys = append(keys, k)
+	}
+	sort.Strings(keys)
+	for _, k := range keys {
+		fd := fns[k]
+		if fd.Body == nil {
+			continue
+		}
+		ast.Inspect(fd.Body, func(n ast.Node) bool {
+			rs, ok := n.(*ast.RangeStmt)
+			if !ok || !strings.HasSuffix(exprPath(rs.X), "Spec().Definitions") {
+				return true
+			}
+			val, _ := rs.Value.(*ast.Ident)
+			if val == nil {
+				return true
+			}
+			ast.Inspect(rs.Body, func(m ast.Node) bool {
+				c, ok := m.(*ast.CallExpr)
+				if !ok || callName(c) == "scratchSchema" {
+					return true
+				}
+				for _, a := range c.Args {
+					scratch := false
+					if callName(a) == "scratchSchema" && len(a.(*ast.CallExpr).Args) == 1 {
+						a = a.(*ast.CallExpr).Args[0]
+						scratch = true
+					}
+					if u, ok := a.(*ast.UnaryExpr); ok && u.Op == token.AND {
+						a = u.X
+					}
+					if id, ok := a.(*ast.Ident); ok && id.Name == val.Name {
+						out = append(out, docWalkFact{Func: k, Callee: callName(c), Scratch: scratch})
+					}
+				}
+				return true
+			})
+			return true
+		})
+	}
+	return out
+}
+
 // ------------------------------------------------------------ rendering
 
 func genFacts(p *pkgInfo) string {
@@ -499,6 +555,17 @@ func genFacts(p *pkgInfo) string {
 	for i, w := range ws {
 		fmt.Fprintf(&b, "  { site := %s, func := %s, expr := %s, target := %s, detail := %s }", leanStr(w.Site), leanStr(w.Func), leanStr(w.Expr), leanStr(w.Target), leanStr(w.Detail))
 		if i < len(ws)-1 {
+			b.WriteString(",")
+		}
+		b.WriteString("\n")
+	}
+	b.WriteString("]\n\n")
+	b.WriteString("/-- calls made with the schema of a loop over the caller's definitions: (function, callee, through scratchSchema) -/\n")
+	b.WriteString("def definitionWalks : List (String × String × Bool) := [\n")
+	dws := docWalkFacts(p)
+	for i, f := range dws {
+		fmt.Fprintf(&b, "  (%s, %s, %s)", leanStr(f.Func), leanStr(f.Callee), leanBool(f.Scratch))
+		if i < len(dws)-1 {
 			b.WriteString(",")
 		}
 		b.WriteString("\n")
